@@ -47,6 +47,18 @@
 (* pseudo-NaNs; with Walk also every single-bit mantissa); for ppc_fp128   *)
 (* all pairs of the 84 double boundary patterns.  Enumeration is in Next   *)
 (* (not Init) so that all workers share it.                                *)
+(* PowerOfTwoNeighbours (Pow2 = TRUE): for the kinds that are printed in   *)
+(* decimal (half, float, double) EVERY power of two of the kind's range -  *)
+(* normal (every exponent field 1..max-1, mantissa 0) and subnormal (one   *)
+(* mantissa bit) -, the value one ulp below it and one ulp above it, and   *)
+(* their negatives.  The values that round to 2^e form an ASYMMETRIC       *)
+(* interval (the ulp below a power of two is half the ulp above it): the   *)
+(* class on which a shortest-digits decimal printer that assumes a         *)
+(* symmetric interval emits the digits of the neighbour below.  The spec   *)
+(* emits the hexadecimal spelling (tag "pow2") with the required bits;     *)
+(* the harness derives from each vector the exact decimal spelling and the *)
+(* constant.NewFloat call of the same value, all judged by the one law of  *)
+(* FloatLitTrace.tla (LLVM reads the printed literal as the same bits).    *)
 (*                                                                         *)
 (* Properties (invariants over the pattern states):                        *)
 (*   RoundTrip     FloatDenoteHex(kind, HexSpelling(kind, b)) = Read(b)    *)
@@ -81,7 +93,8 @@ CONSTANTS AsImplemented,  \* BOOLEAN: model the known deviations of the library
           ChunkSize,      \* half patterns per job; divides 65536
           ChunkStride,    \* every ChunkStride-th chunk is enumerated (1 = all 65 536 patterns)
           Walk,           \* BOOLEAN: boundary mantissas also include every single-bit pattern
-          Kinds           \* subset of the six kinds to enumerate
+          Kinds,          \* subset of the six kinds to enumerate
+          Pow2            \* BOOLEAN: also the dimension PowerOfTwoNeighbours (below, above JobSet)
 
 HalfChunks == {c \in 0..(65536 \div ChunkSize - 1) : c % ChunkStride = 0}
 
@@ -308,13 +321,39 @@ BoundaryX87(i) == LET per == MantCount("x86_fp80")
 Boundary84(i) == LET s == (i - 1) \div 42  ei == ((i - 1) % 42) \div 6 + 1  mi == ((i - 1) % 6) + 1 IN
                  Mk("double", s, Exps("double")[ei], Mants(52)[mi])
 
-\* jobs: [kind, p]; half: p = chunk number; ppc_fp128: p = index of the first double; others p = 0
-JobSet == {[kind |-> "half", p |-> c] : c \in (IF "half" \in Kinds THEN HalfChunks ELSE {})}
+\* PowerOfTwoNeighbours.  The exponents of kind k: 1..MaxExp-1 (normal, 2^(e-bias)) and, after them,
+\* j in 1..ManW (subnormal, the single mantissa bit j).  Six patterns per exponent: sign x (one ulp
+\* below, the power of two, one ulp above).  Below a normal power of two lies the all-ones mantissa of
+\* the exponent before it (for exponent field 1: the largest subnormal).
+Pow2Kinds == IF Pow2 THEN Kinds \cap {"half", "float", "double"} ELSE {}
+Pow2Exps(k) == MaxExp(k) - 1 + ManW(k)
+Pow2PerJob == 384        \* 64 exponents per job
+Pow2Jobs(k) == (6 * Pow2Exps(k) + Pow2PerJob - 1) \div Pow2PerJob
+Unit(w, j) == [i \in 1..w |-> IF i = j THEN 1 ELSE 0]
+Pow2Pattern(k, g) ==
+  LET x == g - 1  ei == x \div 6 + 1  s == (x % 6) \div 3  d == x % 3  w == ManW(k) IN
+  IF ei <= MaxExp(k) - 1
+  THEN CASE d = 1 -> Mk(k, s, ei, Zeros(w))
+         [] d = 2 -> Mk(k, s, ei, Zeros(w - 1) \o <<1>>)
+         [] OTHER -> Mk(k, s, ei - 1, Ones(w))
+  ELSE LET j == ei - (MaxExp(k) - 1) IN
+       CASE d = 1 -> Mk(k, s, 0, Unit(w, j))
+         [] d = 2 -> Mk(k, s, 0, IF j = w THEN Unit(w, w - 1) ELSE [i \in 1..w |-> IF i = j \/ i = w THEN 1 ELSE 0])
+         [] OTHER -> Mk(k, s, 0, [i \in 1..w |-> IF i > j THEN 1 ELSE 0])
+IsPow2Job(job) == job.p < 0           \* p = -(number of the job)
+
+\* jobs: [kind, p]; half: p = chunk number; ppc_fp128: p = index of the first double; others p = 0;
+\* PowerOfTwoNeighbours: p = -1, -2, ...
+JobSet == UNION {{[kind |-> k, p |-> 0 - c] : c \in 1..Pow2Jobs(k)} : k \in Pow2Kinds} \cup {[kind |-> "half", p |-> c] : c \in (IF "half" \in Kinds THEN HalfChunks ELSE {})}
           \cup {[kind |-> k, p |-> 0] : k \in Kinds \cap {"float", "double", "fp128", "x86_fp80"}}
           \cup {[kind |-> "ppc_fp128", p |-> i] : i \in (IF "ppc_fp128" \in Kinds THEN 1..84 ELSE {})}
 
-JobLen(job) == CASE job.kind = "half" -> ChunkSize [] job.kind = "ppc_fp128" -> 84 [] OTHER -> BoundaryCount(job.kind)
+JobLen(job) == IF IsPow2Job(job)
+               THEN LET left == 6 * Pow2Exps(job.kind) - (0 - job.p - 1) * Pow2PerJob IN
+                    IF left < Pow2PerJob THEN left ELSE Pow2PerJob
+               ELSE CASE job.kind = "half" -> ChunkSize [] job.kind = "ppc_fp128" -> 84 [] OTHER -> BoundaryCount(job.kind)
 PatternAt(job, i) ==
+  IF IsPow2Job(job) THEN Pow2Pattern(job.kind, (0 - job.p - 1) * Pow2PerJob + i) ELSE
   CASE job.kind = "half"      -> Bits(job.p * ChunkSize + i - 1, 16)
     [] job.kind = "x86_fp80"  -> BoundaryX87(i)
     [] job.kind = "ppc_fp128" -> Boundary84(job.p) \o Boundary84(i)
@@ -352,6 +391,13 @@ VectorsOf(kind, b) ==
                  VecOf(kind, "inexact-first", Lit("D", BitsToHex(SetBit(w, FirstDropped(kind, b)))), b)>>
           ELSE <<>>)
 
+\* PowerOfTwoNeighbours: the canonical hexadecimal spelling only (the decimal spelling and the API call
+\* of the same value are derived from it by the harness)
+Pow2VectorsOf(kind, b) ==
+  LET canon == HexSpelling(kind, b)
+      full  == IF canon.form = "D" THEN Lit("D", PadLeft(canon.digs, 16)) ELSE canon
+  IN <<VecOf(kind, "pow2", full, b)>>
+
 RECURSIVE Flatten(_, _)
 Flatten(ss, k) == IF k = 0 THEN <<>> ELSE Flatten(ss, k - 1) \o ss[k]
 
@@ -360,8 +406,9 @@ Flatten(ss, k) == IF k = 0 THEN <<>> ELSE Flatten(ss, k - 1) \o ss[k]
 InexactStride == 256
 VectorsOfJob(job) ==
   LET vs == [i \in 1..JobLen(job) |->
-               LET all == VectorsOf(job.kind, PatternAt(job, i)) IN
-               IF job.kind = "half" /\ i % InexactStride # 1 THEN SubSeq(all, 1, Len(all) - 2) ELSE all]
+               LET all == IF IsPow2Job(job) THEN Pow2VectorsOf(job.kind, PatternAt(job, i))
+                          ELSE VectorsOf(job.kind, PatternAt(job, i)) IN
+               IF ~IsPow2Job(job) /\ job.kind = "half" /\ i % InexactStride # 1 THEN SubSeq(all, 1, Len(all) - 2) ELSE all]
   IN Flatten(vs, Len(vs))
 
 JobName(job) == job.kind \o "_" \o ToString(job.p)
